@@ -768,9 +768,14 @@ func (c *Ctx) f6AllLengths(fn *ssa.Function, nChecks *int) {
 		if ne < 0 {
 			continue
 		}
-		// the unequal edge must lead to a block that returns (error exit)
-		tgt := cd.Block.Succs[ne]
-		if _, isRet := tgt.Instrs[len(tgt.Instrs)-1].(*ssa.Return); !isRet {
+		// the unequal edge must be an error exit: no successful return can be reached through it
+		errExit := true
+		for _, r := range successReturns(fn) {
+			if core.ReachableFromEdge(fn, cd.Block, ne, nil, r) {
+				errExit = false
+			}
+		}
+		if !errExit {
 			continue
 		}
 		l := core.InnermostLoop(loops, cd.Block)
@@ -795,14 +800,14 @@ func (c *Ctx) f6AllLengths(fn *ssa.Function, nChecks *int) {
 	}
 	// exit of the guard loop dominates the uses
 	exitDom := func(i ssa.Instruction) bool {
-		for b := range guard.Blocks {
-			for _, s := range b.Succs {
-				if !guard.Blocks[s] && (s == i.Block() || s.Dominates(i.Block())) {
-					return true
-				}
+		// every feasible path from entry to the use leaves the guard loop through its header (all polynomials seen)
+		cut := core.NewCuts()
+		for si, s := range guard.Header.Succs {
+			if !guard.Blocks[s] {
+				cut.AddEdge(guard.Header, si)
 			}
 		}
-		return false
+		return core.MustPass(fn, cut, i)
 	}
 	ok := true
 	n := 0
